@@ -2,7 +2,7 @@
 
 def project(kind, ins, outs):
     # compared observables: reply-code structure, store contents, status
-    if kind in ("smtp", "smtptls", "smtpdefer", "smtpallow", "smtppar", "smtprm", "asm", "asmtls", "asmr", "lua", "luapar") and len(outs) >= 6:
+    if kind in ("smtp", "smtptls", "smtpdefer", "smtpallow", "smtppar", "smtprm", "asm", "asmtls", "asmr", "lua", "luareload", "luapar") and len(outs) >= 6:
         return [outs[0], outs[4], outs[5]]
     return outs
 
